@@ -724,10 +724,14 @@ func (e *Engine) lemmaObligation(l *Lemma) (o *Obligation, err error) {
 			env.pkg = p
 		}
 	}
-	var reveal []string
+	var reveal, hideL []string
 	for _, un := range l.Uses {
 		if strings.HasPrefix(un, "spec.") {
 			reveal = append(reveal, un)
+			continue
+		}
+		if strings.HasPrefix(un, "-spec.") { // `uses -spec.f`: the defining axiom of f is withheld from this lemma's VC
+			hideL = append(hideL, strings.TrimPrefix(un, "-"))
 			continue
 		}
 		var dep *Lemma
@@ -748,5 +752,5 @@ func (e *Engine) lemmaObligation(l *Lemma) (o *Obligation, err error) {
 		st.assume(env.evalBool(dep.E))
 	}
 	goal := env.evalBool(l.E)
-	return &Obligation{Name: "lemma/" + l.Name, Func: "lemma", Kind: "lemma", Hyps: append([]*Term(nil), st.pc...), Goal: goal, Pos: l.Pos, Reveal: reveal}, nil
+	return &Obligation{Name: "lemma/" + l.Name, Func: "lemma", Kind: "lemma", Hyps: append([]*Term(nil), st.pc...), Goal: goal, Pos: l.Pos, Reveal: reveal, HideSpec: hideL}, nil
 }
